@@ -202,7 +202,7 @@ func shard(t *vk.T) {
 	}
 	m := loadMaterial(t, os.Getenv("VERIF_C40_MATERIAL"))
 	w := &worker{t: t, m: m, refs: map[string]*refEntry{}, nShards: n}
-	rounds := t.Pick(40, 600)
+	rounds := t.Pick(28, 600)
 	if s := os.Getenv("VERIF_C40_ROUNDS"); s != "" {
 		fmt.Sscan(s, &rounds)
 	}
